@@ -5,7 +5,8 @@ EXPLANATION = (
     "D1 pairing discipline: a '{' may be paired with `the first '}' after it` (find('}') on the remainder) only if it is the RIGHT-MOST '{' (rfind, or last()/next_back() of match_indices, or the first item of a reversed iterator that is not advanced again); "
     "D2 `return true` is reached only through Pattern::matches on a pattern compiled from format!(prefix, alternative, suffix) with prefix = text before the '{', alternative = an item of split(',') over the text strictly between the braces, suffix = text after the '}'; the fall-through result is false; "
     "D3 an expansion that does not compile is skipped (matched on Ok, never unwrapped); "
-    "D4 every path of Pattern::new that constructs an Alternate pattern passed the balance loop: '{' pushes, '}' pops or fails with Err(Alternate), a non-empty stack at the end fails; D1-D3 are decided on the normal form ANY alternative of X.split(','): Pattern::new(format!(first, alt, last)) is Ok and matches(pkg), with the pieces normalised by substr (split_at, slicing, split_once, rsplit_once alike) and the quantifier as a for-loop or .any(..); D4 on a depth normal form (a stack pushed/popped or a counter +1/-1 guarded by != 0, inline or in a helper predicate, dispatch by contains('{')||contains('}') or contains(['{','}']))")
+    "D4 every path of Pattern::new that constructs an Alternate pattern passed the balance loop: '{' pushes, '}' pops or fails with Err(Alternate), a non-empty stack at the end fails; D1-D3 are decided on the normal form ANY alternative of X.split(','): Pattern::new(format!(first, alt, last)) is Ok and matches(pkg), with the pieces normalised by substr (split_at, slicing, split_once, rsplit_once alike) and the quantifier as a for-loop or .any(..); D4 on a depth normal form (a stack pushed/popped or a counter +1/-1 guarded by != 0, inline or in a helper predicate, dispatch by contains('{')||contains('}') or contains(['{','}']))"
+    " D4-VALUE the compiled pattern keeps the input as it is (C05's D1-VALUE verdicts, shared): text outside the braces belongs to every expansion.")
 NOT_DECIDED = [
     "completeness of the expansion beyond what D1+D2 imply (the recursion through Pattern::new/matches expands the remaining groups)",
     "semantics of str::split(',') / find / rfind (std)",
@@ -419,19 +420,7 @@ def run(ctx):
 
     # ---- D4 (continued): every pattern containing '{' or '}' reaches that balance check, nothing else does (the dispatch table of
     #      Pattern::new, shared with C05): a pattern with a stray '}' must not slip through as a plain string
-    import rules.c05 as c05
-    from check import Ctx, Record
-    sub = Ctx("C05", ctx.tier, ctx.fx)
-    sub.inline_set = ctx.inline_set
-    sub.desugar = bool(getattr(c05, "DESUGAR", False))
-    try:
-        c05.run(sub)
-        shared = [r for r in sub.records if r.rule == "D1-DISPATCH"]
-    except Exception:
-        shared = None
-    if not shared:
-        ctx.violation("D4-DISPATCH", NEW, "dispatch-table", "the dispatch table of Pattern::new could not be evaluated", "")
-    else:
-        for r in shared:
-            ctx.records.append(Record("D4-DISPATCH", r.item, r.instance, r.verdict, r.detail, r.span, False))
+    share_rules(ctx, "C05", ("D1-DISPATCH",), "D4-DISPATCH", NEW, 2)
+    # ... and what the compiled pattern keeps is the input as it is (C05's D1-VALUE): the text outside the braces belongs to every expansion
+    share_rules(ctx, "C05", ("D1-VALUE",), "D4-VALUE", NEW, 3)
 
